@@ -33,16 +33,16 @@ type Node struct {
 	Indef bool       // indefinite-length string / array / map
 }
 
-func nUint(v uint64) *Node      { return &Node{Kind: kUint, N: v} }
-func nNint(v uint64) *Node      { return &Node{Kind: kNint, N: v} }
-func nBstr(b []byte) *Node      { return &Node{Kind: kBstr, B: b} }
-func nTstr(s string) *Node      { return &Node{Kind: kTstr, B: []byte(s)} }
-func nArr(k ...*Node) *Node     { return &Node{Kind: kArr, Kids: k} }
-func nMap(p ...[2]*Node) *Node  { return &Node{Kind: kMap, Pairs: p} }
+func nUint(v uint64) *Node         { return &Node{Kind: kUint, N: v} }
+func nNint(v uint64) *Node         { return &Node{Kind: kNint, N: v} }
+func nBstr(b []byte) *Node         { return &Node{Kind: kBstr, B: b} }
+func nTstr(s string) *Node         { return &Node{Kind: kTstr, B: []byte(s)} }
+func nArr(k ...*Node) *Node        { return &Node{Kind: kArr, Kids: k} }
+func nMap(p ...[2]*Node) *Node     { return &Node{Kind: kMap, Pairs: p} }
 func nTag(t uint64, c *Node) *Node { return &Node{Kind: kTag, N: t, Kids: []*Node{c}} }
-func nSimple(v uint64) *Node    { return &Node{Kind: kSimple, N: v} }
-func nNull() *Node              { return nSimple(22) }
-func nUndef() *Node             { return nSimple(23) }
+func nSimple(v uint64) *Node       { return &Node{Kind: kSimple, N: v} }
+func nNull() *Node                 { return nSimple(22) }
+func nUndef() *Node                { return nSimple(23) }
 func nInt(i int64) *Node {
 	if i >= 0 {
 		return nUint(uint64(i))
